@@ -36,7 +36,7 @@ def tasks(tier, seed):
     t = [{"sub": "cross", "shard": i, "nshard": 12} for i in range(12)]
     t += [{"sub": "nonunits", "shard": i} for i in range(2)]
     t += [{"sub": "casei", "shard": i, "nshard": 2} for i in range(2)]
-    t += [{"sub": "casei_xproc", "shard": 0}]
+    t += [{"sub": "casei_xproc", "shard": 0}, {"sub": "late", "shard": 0}]
     t += [{"sub": "delta", "shard": 0}]
     t += [{"sub": "history", "shard": i} for i in range(4)]
     return t
@@ -309,6 +309,51 @@ def run_casei(task, tier, seed, col):
                     col.run_case(case_casei, {"s": s, "mode": mode})
 
 
+# ---- spellings added later (@alias, define): every spelling table, incl. the case-insensitive one, knows them
+
+LATE_SPELLINGS = [("@alias angstrom = angstroem", "angstroem", "angstrom"), ("@alias meter = metro_x", "metro_x", "meter"), ("smoot = 1.7018 * meter = smt", "smoot", "smoot"),
+                  ("@alias second = sekunde = sek_x", "sek_x", "second")]
+
+
+def case_late(case, col=None):
+    import pint
+
+    line, sp, canon = LATE_SPELLINGS[case["i"] % len(LATE_SPELLINGS)]
+    how, ci = case["how"], case["ci"]
+    if col is not None:
+        col.case(("late", line, how, ci), True, sample={"definition": line, "loaded": how, "case_sensitive": not ci}, cls=("ci" if ci else "cs") + ":" + how)
+    if how == "define":
+        ureg = pint.UnitRegistry(case_sensitive=not ci)
+        ureg.define(line)
+    else:
+        ureg = pint.UnitRegistry(case_sensitive=not ci)
+        ureg.load_definitions([line])
+    want = {sp: canon, "kilo" + sp: "kilo" + canon, sp + "s": canon, "k" + sp if False else "milli" + sp + "s": "milli" + canon}
+    if ci:
+        # (case-insensitive lookup folds the case of unit spellings; prefixes keep their case)
+        want.update({sp.upper(): canon, sp.capitalize(): canon, "kilo" + sp.upper(): "kilo" + canon, "milli" + sp.capitalize() + "s": "milli" + canon})
+    for q, w in want.items():
+        s_, n = attempt(ureg.get_name, q)
+        if s_ == "err" or n != w:
+            raise Violation(f"late_spelling_not_resolved:{'ci' if ci else 'cs'}", f"after {line!r} ({how}), get_name({q!r}) (case_sensitive={not ci}) -> {n!r}, expected {w!r}")
+        s_, u = attempt(ureg.parse_units, q)
+        if s_ == "err" or dict(u._units) != {w: 1}:
+            raise Violation(f"late_spelling_not_parsed:{'ci' if ci else 'cs'}", f"after {line!r} ({how}), parse_units({q!r}) -> {u!r}")
+    if not ci:
+        for q in (sp.upper(), sp.capitalize()):
+            s_, n = attempt(ureg.get_name, q)
+            if s_ == "ok" and q not in (sp,):
+                raise Violation("case_sensitive_lookup_accepts_case_variant:late", f"get_name({q!r}) = {n!r}")
+
+
+def run_late(task, tier, seed, col):
+    for i in range(len(LATE_SPELLINGS)):
+        for how in ("define", "load"):
+            for ci in (False, True):
+                col.run_case(lambda c: case_late(c, col), {"i": i, "how": how, "ci": ci})
+    col.exhaustive = True
+
+
 _XPROC_CODE = r"""
 import json, sys, logging
 logging.disable(logging.CRITICAL)
@@ -516,9 +561,9 @@ def run_history(task, tier, seed, col):
 
 def run_task(task, tier, seed, col):
     {"cross": run_cross, "nonunits": run_nonunits, "casei": run_casei, "casei_xproc": run_casei_xproc, "delta": run_delta,
-     "history": run_history}[task["sub"]](task, tier, seed, col)
+     "history": run_history, "late": run_late}[task["sub"]](task, tier, seed, col)
 
 
 def replay(sub, case):
     return {"cross": case_cross, "nonunits": case_nonunit, "casei": case_casei, "casei_xproc": case_xproc, "delta": case_delta,
-            "history": case_history}[sub](case)
+            "history": case_history, "late": case_late}[sub](case)
